@@ -17,24 +17,25 @@ import (
 // RespSpec is a semantic description of an origin response, rendered into
 // header fields at the moment the origin answers.
 type RespSpec struct {
-	Status   int                 `json:"status"`
-	CC       []string            `json:"cc,omitempty"`       // Cache-Control field lines as sent
-	Expires  string              `json:"expires,omitempty"`  // "" absent | "+N"/"-N" seconds relative to Date | "raw:<text>"
-	LastMod  string              `json:"last_mod,omitempty"` // "" absent | "-N" seconds before Date | "+N" after | "raw:<text>"
-	Age      []string            `json:"age,omitempty"`      // raw Age field lines
-	Date     string              `json:"date,omitempty"`     // "" = now | "+N"/"-N" skew | "absent" | "raw:<text>"
-	ETag     string              `json:"etag,omitempty"`     // "" absent | "auto" = unique per message | literal
-	Vary     []string            `json:"vary,omitempty"`     // Vary field lines
-	DelayS   float64             `json:"delay_s,omitempty"`  // response delay
-	BodySize int                 `json:"body_size,omitempty"`
-	NoBody   bool                `json:"no_body,omitempty"`
-	Extra    map[string][]string `json:"extra,omitempty"`
-	Err      bool                `json:"err,omitempty"` // transport error
-	Hang     bool                `json:"hang,omitempty"`
-	FailBody bool                `json:"fail_body,omitempty"`
-	FailAt   int                 `json:"fail_at,omitempty"`
-	Proto    string              `json:"proto,omitempty"`
-	Chunked  bool                `json:"chunked,omitempty"` // body of unknown length
+	Status    int                 `json:"status"`
+	CC        []string            `json:"cc,omitempty"`       // Cache-Control field lines as sent
+	Expires   string              `json:"expires,omitempty"`  // "" absent | "+N"/"-N" seconds relative to Date | "raw:<text>"
+	LastMod   string              `json:"last_mod,omitempty"` // "" absent | "-N" seconds before Date | "+N" after | "raw:<text>"
+	Age       []string            `json:"age,omitempty"`      // raw Age field lines
+	Date      string              `json:"date,omitempty"`     // "" = now | "+N"/"-N" skew | "absent" | "raw:<text>"
+	ETag      string              `json:"etag,omitempty"`     // "" absent | "auto" = unique per message | literal
+	Vary      []string            `json:"vary,omitempty"`     // Vary field lines
+	DelayS    float64             `json:"delay_s,omitempty"`  // response delay
+	BodySize  int                 `json:"body_size,omitempty"`
+	NoBody    bool                `json:"no_body,omitempty"`
+	Extra     map[string][]string `json:"extra,omitempty"`
+	Err       bool                `json:"err,omitempty"` // transport error
+	Hang      bool                `json:"hang,omitempty"`
+	FailBody  bool                `json:"fail_body,omitempty"`
+	FailAt    int                 `json:"fail_at,omitempty"`
+	Proto     string              `json:"proto,omitempty"`
+	Chunked   bool                `json:"chunked,omitempty"`    // body of unknown length
+	NilHeader bool                `json:"nil_header,omitempty"` // the upstream hands over a response whose Header map is nil
 }
 
 func relTime(base time.Time, spec string) (string, bool) {
@@ -55,7 +56,7 @@ func relTime(base time.Time, spec string) (string, bool) {
 // Render builds the sim.Reply for a spec; now is the origin's clock reading.
 func Render(rs *RespSpec, now time.Time, serial string) *sim.Reply {
 	rep := &sim.Reply{Status: rs.Status, Header: http.Header{}, BodySize: rs.BodySize, NoBody: rs.NoBody,
-		Delay: time.Duration(rs.DelayS * float64(time.Second)), Hang: rs.Hang, FailBody: rs.FailBody, FailAt: rs.FailAt, Proto: rs.Proto, Chunked: rs.Chunked}
+		Delay: time.Duration(rs.DelayS * float64(time.Second)), Hang: rs.Hang, FailBody: rs.FailBody, FailAt: rs.FailAt, Proto: rs.Proto, Chunked: rs.Chunked, NilHeader: rs.NilHeader}
 	if rs.Err {
 		rep.Err = sim.ErrOrigin
 		return rep
